@@ -316,8 +316,83 @@ def eval_ir_lifting(ctx, R="C13.5"):
     ctx.floor(R, "node kinds whose conversion was evaluated", decided, 10)
 
 
+def eval_declaration_split(ctx, R="C13.1"):
+    """`T a = e1, b, c = e3;` and `T (a, b) op e;` by evaluation of the two shortcut functions: each symbol is declared
+    and - when it has an initialiser - assigned with the operator written, before the next symbol is declared (a later
+    initialiser may read an earlier symbol, an earlier one must not see a later declaration); a tuple declaration
+    declares every symbol and then makes one multi-assignment with the operator written."""
+    import passeval
+    from finfun import NONE, S, Unsupported
+    from passeval import O, Panic, Sink, V
+
+    SHF = "program_structure/src/abstract_syntax_tree/ast_shortcuts.rs"
+    ASTF_ = "program_structure/src/abstract_syntax_tree/ast.rs"
+    try:
+        w = passeval.PassWorld([ASTF_, SHF], SHF)
+    except Exception:  # noqa: BLE001
+        return
+    w.lenient_opaque = True
+    f1 = w.free.get("split_declaration_into_single_nodes")
+    f2 = w.free.get("split_declaration_into_single_nodes_and_multi_substitution")
+    if f1 is None or f2 is None or "Symbol" not in w.structs:
+        return ctx.missing(R, "ast_shortcuts::split_declaration_into_single_nodes")
+    w.stubs = {
+        "build_declaration": lambda a: V("Statement", "Declaration", meta=a[0], xtype=a[1], name=a[2], dimensions=a[3]),
+        "build_substitution": lambda a: V("Statement", "Substitution", meta=a[0], var=a[1], access=a[2], op=a[3], rhe=a[4]),
+        "build_multi_substitution": lambda a: V("Statement", "MultiSubstitution", meta=a[0], lhe=a[1], op=a[2], rhe=a[3]),
+        "build_tuple": lambda a: V("Expression", "Tuple", meta=a[0], values=a[1]),
+        "build_initialization_block": lambda a: V("Statement", "InitializationBlock", meta=a[0], xtype=a[1], initializations=a[2]),
+    }
+    mh = []
+    mh.append(("O", "meta", (("clone", ("PY", lambda: mh[0])),)))
+    xt = ("O", "declared-type", (("clone", ("PY", lambda: xt)),))
+    OP, OP2 = O("operator-written"), O("tuple-operator-written")
+
+    def sym(nm, init):
+        vals = {"name": nm, "is_array": ("L", (O("dim-of-" + nm),)), "init": NONE if init is None else S("Some", init)}
+        return S("Symbol", *[vals[f_] for f_ in w.structs["Symbol"]])
+
+    def listed(x):
+        return list(x.items) if isinstance(x, Sink) else (list(x[1]) if isinstance(x, tuple) and x and x[0] == "L" else None)
+
+    def shape(st):
+        if not (isinstance(st, tuple) and len(st) > 3 and st[0] == "V"):
+            return ("?",)
+        if st[2] == "Declaration":
+            return ("declare", st[3].get("name"))
+        if st[2] == "Substitution":
+            return ("assign", st[3].get("var"), "op" if st[3].get("op") is OP else "other-op", st[3].get("rhe")[1] if isinstance(st[3].get("rhe"), tuple) else None)
+        if st[2] == "MultiSubstitution":
+            l_ = st[3].get("lhe")
+            names = [v_[3].get("name") for v_ in (listed(l_[3].get("values")) or [])] if isinstance(l_, tuple) and len(l_) > 3 else None
+            return ("assign-tuple", tuple(names or ()), "op" if st[3].get("op") is OP2 else "other-op", st[3].get("rhe")[1] if isinstance(st[3].get("rhe"), tuple) else None)
+        return (st[2],)
+
+    ea, ec, et = O("init-a"), O("init-c"), O("tuple-init")
+    try:
+        r1 = w.call_fn(f1, [mh[0], xt, ("L", (sym("a", ea), sym("b", None), sym("c", ec))), OP])
+        ti = S("TupleInit", ("T", (OP2, et))) if "TupleInit" in w.structs else None
+        r2 = w.call_fn(f2, [mh[0], xt, ("L", (sym("a", None), sym("b", None))), S("Some", ti)])
+        r3 = w.call_fn(f2, [mh[0], xt, ("L", (sym("a", None), sym("b", None))), NONE])
+    except (Unsupported, Panic) as u:
+        w.stubs = {}
+        return ctx.note("ast_shortcuts::split_declaration_*: outside the evaluator's subset (%s)" % u)
+    w.stubs = {}
+
+    def block(r):
+        return [shape(x) for x in (listed(r[3].get("initializations")) or [])] if isinstance(r, tuple) and len(r) > 3 and r[0] == "V" and r[2] == "InitializationBlock" else None
+
+    want1 = [("declare", "a"), ("assign", "a", "op", "init-a"), ("declare", "b"), ("declare", "c"), ("assign", "c", "op", "init-c")]
+    g1 = block(r1)
+    ctx.check(R, "ast_shortcuts::split_declaration_into_single_nodes/expansion", g1 == want1 and r1[3].get("xtype") is xt, "`T a = e1, b, c = e3` expands to %s; expected declare a, a op e1, declare b, declare c, c op e3 (each initialiser directly after its own declaration, with the operator written)" % (g1,), site(SHF, f1))
+    want2 = [("declare", "a"), ("declare", "b"), ("assign-tuple", ("a", "b"), "op", "tuple-init")]
+    g2, g3 = block(r2), block(r3)
+    ctx.check(R, "ast_shortcuts::split_declaration_into_single_nodes_and_multi_substitution/expansion", g2 == want2 and g3 == want2[:2], "`T (a, b) op e` expands to %s, without initialiser to %s; expected declare a, declare b, (a, b) op e with the operator written" % (g2, g3), site(SHF, f2))
+
+
 def run(ctx):
     rule_expansions(ctx)
+    eval_declaration_split(ctx)
     rule_tokens(ctx)
     rule_kind_tables(ctx)
     eval_ir_lifting(ctx)
